@@ -487,6 +487,9 @@ Inv_IndexConsistent == \A s \in DOMAIN subIdx : Has(req, subIdx[s]) /\ req[subId
 (* liveness (C09): after the tasks are gone every operation that was started finishes *)
 Live_AllFinish == (st = "done" /\ rt \in {"done"}) ~> (\A h \in Ops : fe[h].st \in {"idle", "done"})
 
+(* a fault that a task notices leads to the client being disconnected with a recorded cause *)
+Live_FaultLeadsToDisconnect == (st = "failed" \/ rt = "failed") ~> (~feOpen /\ cause # None)
+
 View == <<idCtr, fe, toBack, req, subIdx, bat, stream, seen, unsubSent, inq, nPeer, pushed,
           st, rt, wd, feOpen, closeCh, wdAlive, cause, stRes, rtRes, fault, mgrAlive, closeSeen, fwd>>
 =============================================================================
